@@ -79,6 +79,7 @@ func genHistory(r *lib.Rand, tier, mode string) History {
 		pre[i], pre[j] = pre[j], pre[i]
 	}
 	add(pre...)
+	add(randomServiceSetup(r)...)
 	for k := 0; k < 6; k++ {
 		add(Step{Op: "mt.mint", A: r.Intn(nActors), B: r.Intn(3), C: r.Intn(nActors), N: uint64(3 * (1 + r.Intn(300)))})
 	}
@@ -88,6 +89,10 @@ func genHistory(r *lib.Rand, tier, mode string) History {
 	extra(r.Intn(nx + 1))
 	add(Step{Op: "oracle.createfeed", A: 0, B: 0, C: r.Intn(3), N: uint64(2 + r.Intn(3))}, Step{Op: "oracle.startfeed", A: 0, B: 0})
 	extra(r.Intn(nx + 1))
+	// oracle random requests: each picks one of the three providers of the random service
+	for k := 0; k < 3; k++ {
+		add(Step{Op: "random.oracle", A: r.Intn(nActors), N: uint64(1 + r.Intn(3))})
+	}
 	add(blk)
 	add(Step{Op: "service.respond", A: 1, B: r.Intn(4), N: uint64(1 + r.Intn(900))})
 	extra(r.Intn(nx + 2))
@@ -105,10 +110,13 @@ func genHistory(r *lib.Rand, tier, mode string) History {
 	for k := 0; k < nt; k++ {
 		extra(1 + r.Intn(nx+2))
 		if r.Chance(1, 2) {
-			add(Step{Op: "service.respond", A: 1 + 2*r.Intn(2), B: r.Intn(4), N: uint64(1 + r.Intn(900))})
+			add(Step{Op: "service.respond", A: []int{1, 3, 4}[r.Intn(3)], B: r.Intn(4), N: uint64(1 + r.Intn(900))})
 		}
 		if r.Chance(1, 3) {
 			add(Step{Op: "service.call", A: 2, B: 1, C: 3, N: uint64(r.Intn(2))})
+		}
+		if r.Chance(1, 2) {
+			add(Step{Op: "random.oracle", A: r.Intn(nActors), N: uint64(1 + r.Intn(3))})
 		}
 		add(blk)
 	}
@@ -150,6 +158,8 @@ func genServiceStress(r *lib.Rand, tier, mode string) History {
 		Step{Op: "record.create", A: r.Intn(nActors), N: uint64(r.Intn(9))},
 		Step{Op: "coinswap.add", A: r.Intn(nActors), B: 0, N: uint64(100000 + r.Intn(100000))},
 		Step{Op: "random.request", A: r.Intn(nActors), N: uint64(1 + r.Intn(4))})
+	add(randomServiceSetup(r)...)
+	add(Step{Op: "random.oracle", A: r.Intn(nActors), N: uint64(1 + r.Intn(4))}, Step{Op: "random.oracle", A: r.Intn(nActors), N: uint64(1 + r.Intn(4))})
 	p3, p4 := uint64(5+r.Intn(11)), uint64(5+r.Intn(11))
 	add(Step{Op: "service.define", A: 2, B: 1},
 		Step{Op: "service.bind", A: 3, B: 1, C: 0, N: p3}, Step{Op: "service.bind", A: 4, B: 1, C: 0, N: p4})
@@ -199,6 +209,55 @@ func genServiceStress(r *lib.Rand, tier, mode string) History {
 	return h
 }
 
+// randomServiceSetup: the "random" service definition with THREE provider bindings (actors 1, 3, 4), so
+// that the provider an oracle random request picks (random keeper RequestService: index into the
+// binding list drawn from a PRNG seeded with chain data) is a real choice.
+func randomServiceSetup(r *lib.Rand) []Step {
+	return []Step{{Op: "service.define", A: r.Intn(nActors), B: 3},
+		{Op: "service.bind", A: 1, B: 3, C: 0, N: uint64(1 + r.Intn(5))},
+		{Op: "service.bind", A: 3, B: 3, C: 0, N: uint64(1 + r.Intn(5))},
+		{Op: "service.bind", A: 4, B: 3, C: 0, N: uint64(1 + r.Intn(5))}}
+}
+
+// htltOp: a cross-chain create whose timestamp sits inside the admission window [-15 min, +30 min) of
+// the BLOCK time, or within two seconds of either edge (both sides).
+func htltOp(r *lib.Rand) Step {
+	t := int64(r.Intn(600)) - 300
+	switch r.Intn(4) {
+	case 0:
+		t = -900 + int64(r.Intn(5)) - 2
+	case 1:
+		t = 1800 + int64(r.Intn(5)) - 2
+	}
+	return Step{Op: "htlc.htlt", A: r.Intn(nActors), B: r.Intn(4) / 3, C: r.Intn(2), N: uint64(1 + r.Intn(500)), T: t}
+}
+
+// genClockWindows (clock stream, family "htlt"): in the FIRST block — whose time is the host clock at
+// the start of replica A — cross-chain creates with timestamps 4 s inside the past edge (T = -d+4) and
+// 4 s outside the future edge (T = +d+4) for every duration constant d the translator found, and a few
+// around the edges relative to block time; then claims and more blocks.  See execReplicas for the
+// schedule of the two replicas.
+func genClockWindows(r *lib.Rand, tier string) History {
+	h := History{Mode: "clock", Dt: 5, BigDtAt: -1, Family: "htlt"}
+	n := uint64(1)
+	for _, d := range clockDurations() {
+		for _, t := range []int64{-d + 4, d + 4} {
+			h.Steps = append(h.Steps, Step{Op: "htlc.htlt", A: 1 + r.Intn(nActors-1), B: 0, C: r.Intn(2), N: n, T: t})
+			n++
+			if r.Chance(1, 2) {
+				h.Steps = append(h.Steps, Step{Op: "htlc.htlt", A: 1 + r.Intn(nActors-1), B: 1, C: r.Intn(2), N: n, T: t})
+				n++
+			}
+		}
+	}
+	h.Steps = append(h.Steps, Step{Op: "block"})
+	for k := 0; k < 3; k++ {
+		h.Steps = append(h.Steps, htltOp(r), Step{Op: "htlc.claim", A: r.Intn(nActors), B: r.Intn(8), N: uint64(1 + r.Intn(4))})
+	}
+	h.Steps = append(h.Steps, Step{Op: "block"}, randomOp(r), randomOp(r), Step{Op: "block"})
+	return h
+}
+
 func randomOp(r *lib.Rand) Step {
 	a, b := r.Intn(nActors), r.Intn(nActors)
 	switch r.Weighted(4, 4, 5, 3, 3, 4, 3, 3, 2) {
@@ -242,6 +301,9 @@ func randomOp(r *lib.Rand) Step {
 	case 3:
 		return Step{Op: "record.create", A: a, N: uint64(r.Intn(9))}
 	case 4: // htlc
+		if r.Chance(1, 4) {
+			return htltOp(r)
+		}
 		if r.Chance(3, 5) {
 			return Step{Op: "htlc.create", A: a, B: b, C: r.Intn(3), N: uint64(1 + r.Intn(500))}
 		}
@@ -267,6 +329,9 @@ func randomOp(r *lib.Rand) Step {
 			return Step{Op: "farm.unstake", A: a, B: r.Intn(2), N: uint64(1 + r.Intn(100))}
 		}
 	case 7:
+		if r.Chance(1, 2) {
+			return Step{Op: "random.oracle", A: a, N: uint64(1 + r.Intn(4))}
+		}
 		return Step{Op: "random.request", A: a, N: uint64(1 + r.Intn(4))}
 	default:
 		return Step{Op: "service.withdraw", A: 1 + 2*r.Intn(2)}
@@ -296,6 +361,7 @@ type replicaOut struct {
 	Touched             map[string]bool
 	EndBlockTransitions int
 	FeedTS              int64 // unix time stamped on the newest value of the price feed (0: none)
+	FirstBlockDone      time.Time // host time when the messages of the first block had been executed
 }
 
 type node struct {
@@ -305,22 +371,56 @@ type node struct {
 	ok oraclekeeper.Keeper
 }
 
-func newNode(start time.Time) *node {
-	n := &node{}
-	bal := sdk.NewCoins(
+// actorBalances: what every actor owns at genesis.
+func actorBalances() sdk.Coins {
+	return sdk.NewCoins(
 		sdk.NewCoin("stake", sdkmath.NewInt(1_000_000_000_000)),
 		sdk.NewCoin(rawDenom, sdkmath.NewInt(1_000_000_000)),
 		sdk.NewCoin("btc", sdkmath.NewInt(1_000_000_000)),
 		sdk.NewCoin("eth", sdkmath.NewInt(1_000_000_000)),
+		sdk.NewCoin(htltDenoms[0], sdkmath.NewInt(1_000_000_000)),
+		sdk.NewCoin(htltDenoms[1], sdkmath.NewInt(1_000_000_000)),
 	)
+}
+
+var htltDenoms = []string{"htltbnb", "htltinc"}
+
+// tweakGenesis: what the harness changes in the default genesis, identically for every replica:
+// service fees in any denom; two active HTLT assets (one time-limited) whose deputy is actor 0, with
+// supplies, so that cross-chain swaps (transfer = true) can be created from the first block on.
+func tweakGenesis(cdc codec.Codec, state simapp.GenesisState, deputy sdk.AccAddress) simapp.GenesisState {
+	var sg servicetypes.GenesisState
+	cdc.MustUnmarshalJSON(state[servicetypes.ModuleName], &sg)
+	sg.Params.RestrictedServiceFeeDenom = false
+	state[servicetypes.ModuleName] = cdc.MustMarshalJSON(&sg)
+	var hg htlctypes.GenesisState
+	cdc.MustUnmarshalJSON(state[htlctypes.ModuleName], &hg)
+	hg.Params.AssetParams = nil
+	hg.Supplies = nil
+	for i, d := range htltDenoms {
+		hg.Params.AssetParams = append(hg.Params.AssetParams, htlctypes.AssetParam{
+			Denom: d,
+			SupplyLimit: htlctypes.SupplyLimit{Limit: sdkmath.NewInt(350_000_000_000_000), TimeLimited: i == 1,
+				TimeBasedLimit: sdkmath.NewInt(int64(i) * 50_000_000_000), TimePeriod: time.Hour},
+			Active: true, DeputyAddress: deputy.String(), FixedFee: sdkmath.NewInt(1000),
+			MinSwapAmount: sdkmath.OneInt(), MaxSwapAmount: sdkmath.NewInt(1_000_000_000_000),
+			MinBlockLock: 50, MaxBlockLock: 34560,
+		})
+		z := sdk.NewCoin(d, sdkmath.ZeroInt())
+		// a current supply (as if earlier incoming swaps had been claimed) so that outgoing swaps are possible
+		hg.Supplies = append(hg.Supplies, htlctypes.NewAssetSupply(z, z, sdk.NewCoin(d, sdkmath.NewInt(6_000_000_000)), z, 0))
+	}
+	state[htlctypes.ModuleName] = cdc.MustMarshalJSON(&hg)
+	return state
+}
+
+func newNode(start time.Time) *node {
+	n := &node{}
+	bal := actorBalances()
 	n.e = lib.NewEnv(lib.EnvOpts{NActors: nActors, Balances: bal, StartTime: start,
 		Consumers: []interface{}{&n.mk, &n.sk, &n.ok},
 		Merge: func(cdc codec.Codec, state simapp.GenesisState) simapp.GenesisState {
-			var sg servicetypes.GenesisState
-			cdc.MustUnmarshalJSON(state[servicetypes.ModuleName], &sg)
-			sg.Params.RestrictedServiceFeeDenom = false
-			state[servicetypes.ModuleName] = cdc.MustMarshalJSON(&sg)
-			return state
+			return tweakGenesis(cdc, state, lib.ActorAddr(0))
 		}})
 	return n
 }
@@ -493,6 +593,9 @@ func (rs *runState) obs(label, v string) {
 }
 
 func (rs *runState) closeBlock() {
+	if rs.out.FirstBlockDone.IsZero() {
+		rs.out.FirstBlockDone = time.Now()
+	}
 	e := rs.n.e
 	eb := e.EndBlock()
 	rs.obs("end-block outcome", "eb:"+eb.Kind)
@@ -612,7 +715,7 @@ func coins(denom string, n uint64) sdk.Coins {
 
 const schemas = `{"input":{"type":"object"},"output":{"type":"object"}}`
 
-func svcName(i int) string { return []string{"price-svc", "paid-svc", "other-svc"}[i%3] }
+func svcName(i int) string { return []string{"price-svc", "paid-svc", "other-svc", randomtypes.ServiceName}[i%4] }
 
 // build maps an abstract step to a message, resolving references against the node's current state.
 func (rs *runState) build(st Step) (sdk.Msg, string) {
@@ -758,12 +861,30 @@ func (rs *runState) build(st Step) (sdk.Msg, string) {
 		return &farmtypes.MsgHarvest{PoolId: fmt.Sprintf("farm-%d", 1+st.B%2), Sender: a}, "farm"
 	case "farm.unstake":
 		return &farmtypes.MsgUnstake{PoolId: fmt.Sprintf("farm-%d", 1+st.B%2), Amount: sdk.NewCoin(fmt.Sprintf("lpt-%d", 1+st.B%2), sdkmath.NewIntFromUint64(st.N)), Sender: a}, "farm"
+	// ---- cross-chain swap (HTLT): transfer = true, asset of the genesis, deputy (actor 0) on one side;
+	// the timestamp is st.T seconds away from the time of the block the message executes in
+	case "htlc.htlt":
+		ts := uint64(e.Time.Unix() + st.T)
+		secret, _ := hex.DecodeString(secretOf(st))
+		lock := hex.EncodeToString(htlctypes.GetHashLock(secret, ts))
+		sender, to := a, actor(e, 0)
+		if st.B == 1 { // incoming: the deputy relays a swap from the other chain
+			sender, to = actor(e, 0), actor(e, 1+st.A%(nActors-1))
+		}
+		return &htlctypes.MsgCreateHTLC{Sender: sender, To: to, ReceiverOnOtherChain: "0x9eD05741C1B96FE3C04CE29e4d9b10F5A2A9f8F3", SenderOnOtherChain: "0x4D5b2C2b8f6B7c7a5D6A4e3F2b1C0d9E8f7A6b5C",
+			Amount: coins(htltDenoms[st.C%2], 2000+st.N), HashLock: lock, Timestamp: ts, TimeLock: 50 + st.N%8, Transfer: true}, "htlc"
 	// ---- random
+	case "random.oracle":
+		return &randomtypes.MsgRequestRandom{BlockInterval: st.N, Consumer: a, Oracle: true, ServiceFeeCap: coins("stake", 1000)}, "random"
 	case "random.request":
 		return &randomtypes.MsgRequestRandom{BlockInterval: st.N, Consumer: a, Oracle: false}, "random"
 	// ---- service
 	case "service.define":
-		return &servicetypes.MsgDefineService{Name: svcName(st.B), Description: "d", Tags: []string{"t"}, Author: a, AuthorDescription: "ad", Schemas: schemas}, "service"
+		sch := schemas
+		if svcName(st.B) == randomtypes.ServiceName {
+			sch = servicetypes.RandomServiceSchemas
+		}
+		return &servicetypes.MsgDefineService{Name: svcName(st.B), Description: "d", Tags: []string{"t"}, Author: a, AuthorDescription: "ad", Schemas: sch}, "service"
 	case "service.bind":
 		pricing := fmt.Sprintf(`{"price":"%dstake"}`, st.N)
 		if st.C == 1 {
@@ -776,7 +897,7 @@ func (rs *runState) build(st Step) (sdk.Msg, string) {
 	case "service.respond":
 		// the st.B-th active request addressed to provider A, over the services it is bound to
 		var reqs []*servicetypes.Request
-		for i := 0; i < 3; i++ {
+		for i := 0; i < 4; i++ {
 			resp, err := rs.n.sk.Requests(e.Ctx, &servicetypes.QueryRequestsRequest{ServiceName: svcName(i), Provider: a})
 			if err == nil {
 				reqs = append(reqs, resp.Requests...)
@@ -788,6 +909,10 @@ func (rs *runState) build(st Step) (sdk.Msg, string) {
 		sort.Slice(reqs, func(i, j int) bool { return reqs[i].Id < reqs[j].Id })
 		rq := reqs[st.B%len(reqs)]
 		output := fmt.Sprintf(`{"header":{},"body":{"rate":"%d.%03d"}}`, st.N/1000, st.N%1000)
+		if rq.ServiceName == randomtypes.ServiceName {
+			d := sha256.Sum256([]byte(fmt.Sprintf("seed-%d", st.N)))
+			output = fmt.Sprintf(`{"header":{},"body":{"seed":"%s"}}`, hex.EncodeToString(d[:]))
+		}
 		return &servicetypes.MsgRespondService{RequestId: rq.Id, Provider: a, Result: `{"code":200,"message":""}`, Output: output}, "service"
 	case "service.call2":
 		provs := [][]string{{actor(e, 3)}, {actor(e, 4)}, {actor(e, 3), actor(e, 4)}}[st.C%3]
